@@ -1751,8 +1751,12 @@ class rx:
             'kwargs': {},
             'reverse': False
         }
-        self._method = None
-        return self._clone(operation)
+        # The attribute access becomes an operation on a copy of this
+        # expression; this object keeps its pending attribute, so that it
+        # can be used again (`m = x.imag; m + 1; m + 2`).
+        base = self._clone(copy=True)
+        base._method = None
+        return base._clone(operation)
 
     def __getattribute__(self, name):
         self_dict = super().__getattribute__('__dict__')
